@@ -169,7 +169,32 @@ class C14(Prop):
         return {'type': 'undeclared', 'formula': f, 'undeclared': und, 'data': lang.gen_trace(rng, names, n)}
 
     # -------------------------------------------------------------------------------------------
+    def judge_expect(self, case):
+        """Texts whose intervals are out of order only through the units written next to a declared constant that is
+        used as a bound more than once (`once[0:T s] p and always[1 s:T ms] q` with T = 3: 1 s > 3 ms): parse() must
+        raise RTAMTException."""
+        v = Verdict()
+        v.nontrivial = True
+        v.info['class:constant-bound-used-twice'] = 1
+        err, old = io.StringIO(), sys.stderr
+        sys.stderr = err
+        try:
+            try:
+                s = drive.build_spec(case['api'], {'text': case['text'], 'vars': ['x', 'y'], 'consts': case['consts']})
+                s.parse()
+            except Exception as e:
+                if not drive.is_rtamt_exc(e):
+                    v.bad('parse-raises:' + type(e).__name__, 'parse() of %r raised %s' % (case['text'], type(e).__name__))
+                return v
+        finally:
+            sys.stderr = old
+        v.bad('accepted-bad-interval', 'parse() accepted %r with %s: the second interval has begin > end' % (
+            case['text'], case['consts']))
+        return v
+
     def judge(self, case):
+        if case['type'] == 'expect':
+            return self.judge_expect(case)
         if case['type'] == 'refused':
             return self.judge_refused(case)
         return self.judge_parse(case) if case['type'] == 'parse' else self.judge_undeclared(case)
@@ -427,6 +452,12 @@ class C14(Prop):
                     self.check(ctx, {'type': 'parse', 'text': 'out = %s >= 1' % body if pre in ('(', 'abs(') else
                                      'out = ' + pre * k + '(x >= 1)' + post * k, 'declared': ['x'], 'mutated': True, 'deep': k})
             ctx.count('deep-or-long-texts', 2 * 4 + 2 * 4)
+            for api in ('dt', 'ct'):
+                for T in ('3', '2'):
+                    for first, second in (('once[0:T s]', 'always[1 s:T ms]'), ('once[0:T ms]', 'always[5 ms:T us]'),
+                                          ('historically[0:T s]', 'once[1 s:T ms]'), ('eventually[0:T]', 'always[1 s:T ms]')):
+                        self.check(ctx, {'type': 'expect', 'api': api, 'consts': [('T', 'float', T)],
+                                         'text': 'out = ((%s (x >= 1)) and (%s (y >= 1)))' % (first, second)})
             for api in ('dt', 'ct', 'dt_off', 'ct_off', 'dt_on', 'ct_on'):
                 for how in ('api', 'text'):
                     for op in ('always', 'once', 'until', 'historically'):
